@@ -128,9 +128,16 @@ func runConsumer(r *rt.Run, which string, data []byte, splits []int, fault strin
 				res.err = err
 				return
 			}
+			// the ordinary loop declares its record once and decodes into it again and again
+			reuse := r.T.Bool(1, 2, "c07.decoder-reuses-variable")
+			var kept rawPara
 			for i := 0; i < 1_000_000; i++ {
-				var o rawPara
-				err := dec.Decode(&o)
+				var fresh rawPara
+				o := &fresh
+				if reuse {
+					o = &kept
+				}
+				err := dec.Decode(o)
 				if err == io.EOF {
 					return
 				}
@@ -138,7 +145,12 @@ func runConsumer(r *rt.Run, which string, data []byte, splits []int, fault strin
 					res.err = err
 					return
 				}
-				res.paras = append(res.paras, o.Paragraph)
+				// (a copy: Order and Values of the next paragraph must not show through)
+				cp := control.Paragraph{Order: append([]string{}, o.Paragraph.Order...), Values: map[string]string{}}
+				for k, v := range o.Paragraph.Values {
+					cp.Values[k] = v
+				}
+				res.paras = append(res.paras, cp)
 			}
 			res.err = fmt.Errorf("Decoder did not reach EOF")
 		}
